@@ -1,5 +1,6 @@
 import Lean.Data.Json
 import RaftVerif.Model.Step
+import RaftVerif.Model.ConfigEdit
 open Lean Raft
 
 namespace Driver.Node
@@ -74,6 +75,20 @@ decreasing_by
   have := List.length_pos_of_mem h
   rw [List.length_erase_of_mem h]; omega
 
+def parseEdit (j : Json) : Except String Edit := do
+  let kind ← j.getObjValAs? String "kind"
+  match kind with
+  | "addVoter" => do pure (.addVoter (← getNat j "id") (← j.getObjValAs? String "addr"))
+  | "addNonvoter" => do pure (.addNonvoter (← getNat j "id") (← j.getObjValAs? String "addr") (← getBool j "promote"))
+  | "setAction" => do pure (.setAction (← getNat j "id") (← getNat j "action"))
+  | "setAddr" => do pure (.setAddr (← getNat j "id") (← j.getObjValAs? String "addr"))
+  | "setData" => do pure (.setData (← getNat j "id") (← j.getObjValAs? String "data"))
+  | k => throw s!"unknown edit kind {k}"
+
+def editErrName : EditErr → String
+  | .bootstrapped => "bootstrapped" | .invalid => "invalid" | .exists => "exists"
+  | .notFound => "notFound" | .addrUsed => "addrUsed"
+
 def handleE (j : Json) : Except String Json := do
   let what ← j.getObjValAs? String "what"
   match what with
@@ -124,6 +139,15 @@ def handleE (j : Json) : Except String Json := do
     pure (Json.mkObj [("restart", match Node.restart d retain sor with
       | some n => toJson n
       | none => Json.str "fail")])
+  | "cfgEdit" => do
+    -- the public editing helpers of Config (Model/ConfigEdit.lean): error kind and the configuration afterwards
+    let c ← j.getObjValAs? Config "config"
+    let e ← parseEdit (← j.getObjVal? "edit")
+    let err := match c.applyEdit e with
+      | .ok _ => "ok"
+      | .error k => editErrName k
+    pure (Json.mkObj [("err", Json.str err), ("config", toJson (c.afterEdit e)),
+      ("valid", toJson (Node.configValid (c.afterEdit e)))])
   | w => throw s!"unknown request {w}"
 
 def handle (j : Json) : Json :=
